@@ -326,6 +326,43 @@ theorem oracle_never_admits_crash (P : Params) (v : Variant) (s : Bytes) : admit
   unfold admitsB
   split <;> simp_all
 
+/-! ### a chunk that nothing signs is refused
+
+`parseAndRemoveChunkInfo` verifies the signature of a chunk only when it reaches the next header and
+only if one is pending; a header whose `chunk-signature=` value is empty would therefore pass
+unverified and stand outside the signature chain. The reader refuses it at the header
+(repo fix 7242bc4), for every state, buffer, size and offset. -/
+
+/-- whatever the reader state and the buffer: once the pending check has passed and the header parser
+has delivered a chunk header whose signature value is empty, the activation ends in
+SignatureDoesNotMatch, hands out no byte, and does not record the empty signature -/
+theorem empty_chunk_signature_refused (cfg : ChunkSigned.Cfg) (fuel : Nat) (st st1 st2 : ChunkSigned.State)
+    (p : Bytes) (size off : Int)
+    (hchk : (if st.parsedSig ≠ [] then ChunkSigned.checkSignature cfg st else .ok st) = .ok st1)
+    (hhdr : ChunkSigned.parseChunkHeaderBytes cfg st1 p = (st2, .chunk size [] off)) :
+    ChunkSigned.parseAndRemove cfg (fuel + 1) st p = (st2, ⟨[], .err .sigMismatch⟩) := by
+  rw [ChunkSigned.parseAndRemove]
+  unfold ChunkSigned.parStep
+  simp only [hchk]
+  exact Lemmas.ChunkMerge.parBody_nosig cfg _ st1 st2 p size off hhdr
+
+/-- no data byte is ever handed out by an activation that met an empty chunk signature, even if the
+pending check failed first -/
+theorem empty_chunk_signature_no_output (cfg : ChunkSigned.Cfg) (fuel : Nat) (st : ChunkSigned.State) (p : Bytes)
+    (h : ∀ st1, ∃ st2 size off, ChunkSigned.parseChunkHeaderBytes cfg st1 p = (st2, .chunk size [] off)) :
+    (ChunkSigned.parseAndRemove cfg (fuel + 1) st p).2.out = [] ∧
+      (ChunkSigned.parseAndRemove cfg (fuel + 1) st p).2.status ≠ .nil ∧
+      (ChunkSigned.parseAndRemove cfg (fuel + 1) st p).2.status ≠ .eof := by
+  rw [ChunkSigned.parseAndRemove]
+  unfold ChunkSigned.parStep
+  simp only
+  split
+  · simp
+  · rename_i st1 _
+    obtain ⟨st2, size, off, hh⟩ := h st1
+    rw [Lemmas.ChunkMerge.parBody_nosig cfg _ st1 st2 p size off hh]
+    simp
+
 /-! ### totality of the models
 
 The models are total functions; the only artefact is the fuel of the recursive parts, and it is
@@ -459,5 +496,15 @@ example : (ChunkSigned.read (signedCfg toy false 0) (ChunkSigned.init []) s1 fal
   signed_fuel_suffices _ _ _ _ _
 example : (ChunkUnsigned.read (ucfg toy) (ChunkUnsigned.init u3) 2).2.status ≠ .fuel :=
   unsigned_fuel_suffices _ _ _
+
+/-- `1;chunk-signature= CRLF A CRLF 0;chunk-signature=01 CRLF CRLF`: the data chunk carries no signature -/
+def s1nosig : Bytes :=
+  [49] ++ sigIntro ++ [13, 10] ++ [65] ++ [13, 10] ++ [48] ++ sigIntro ++ [48, 49] ++ [13, 10] ++ [13, 10]
+
+-- (test) the hypotheses of `empty_chunk_signature_refused` are met by a real stream: the run is refused
+example : ChunkSigned.run (signedCfg toy false 0) toy.seedSig [(s1nosig, true)] = ([], .err .sigMismatch) := by decide
+example : (match (ChunkSigned.parseChunkHeaderBytes (signedCfg toy false 0) (ChunkSigned.init toy.seedSig) s1nosig).2 with
+    | .chunk 1 [] _ => true
+    | _ => false) = true := by decide
 
 end Vgw.Props.C12
